@@ -57,7 +57,9 @@ ASSUMPTIONS = [
 ]
 
 # signatures of confirmed defects that a deterministic case reports; Hypothesis searches exclude and count them
-DETERMINISTIC_SIGS = ("C13:event-filter-dtr2-not-loaded",)
+# The DTR2 defect found at the pinned commit is repaired in /repo (KNOWN_FINDINGS.txt "fixed:" line): nothing is
+# excluded from the Hypothesis searches any more.
+DETERMINISTIC_SIGS = ()
 
 # flag positions of the library's filter enums, stated from IEC 62386-301 Table 3, -303 Table 3, -304 Table 2
 LIB_ENUMS = {"pushbutton": list(range(8)), "occupancy": list(range(5)), "light": [0]}
